@@ -18,7 +18,7 @@ from numba_scfg.core.datastructures import basic_block as bb  # noqa: E402
 from numba_scfg.core.datastructures.scfg import SCFG  # noqa: E402
 from numba_scfg.core import transformations as tr  # noqa: E402
 
-EXTRA_PROPS_FILES = ["Scfg/Props/C13Doms.lean", "Scfg/Props/C13Sub.lean", "Scfg/Props/C13Scc.lean"]
+EXTRA_PROPS_FILES = ["Scfg/Props/C13Doms.lean", "Scfg/Props/C13Sub.lean", "Scfg/Props/C13Scc.lean", "Scfg/Props/C13Reach.lean"]
 LEVEL = "proof"
 NAMES = ["a", "b", "c", "d", "e", "f", "g", "h"]
 
